@@ -488,6 +488,16 @@ func (p c12) verify(c *core.C, cs c12Verify) {
 		}
 		fh.Hash = rec
 	}
+	if cs.Prov == "best-both" && fh.Algorithm != cs.Algo && (fh.Algorithm == "sha256" || fh.Algorithm == "sha512") {
+		// the selector took the other of the two lists (which one is "best" is not pinned down): judge the entry by
+		// the list it came from - there the recorded hash is the decoy, the digest of the OTHER content
+		wantRec := hex.EncodeToString(digest(fh.Algorithm, other))
+		if fh.Hash != wantRec {
+			c.Failf("entry from best-both carries algorithm %q but not that field's hash: %s, the field says %s", fh.Algorithm, fh.Hash, wantRec)
+		}
+		cs.Algo, rec = fh.Algorithm, fh.Hash
+		c.Cover("prov:best-both-took-the-other-list")
+	}
 	if fh.Algorithm != cs.Algo {
 		c.Failf("entry from %s carries algorithm %q, its field is %s", cs.Prov, fh.Algorithm, cs.Algo)
 	}
